@@ -14,10 +14,12 @@ import (
 	"net"
 	"os"
 	"path/filepath"
+	"reflect"
 	"regexp"
 	"sort"
 	"strings"
 	realsync "sync"
+	"syscall"
 
 	"github.com/EdgeCast/vflow/ipfix"
 	netflow5 "github.com/EdgeCast/vflow/netflow/v5"
@@ -1123,6 +1125,29 @@ type shutObs struct {
 // template ids announced by the datagrams of the alphabet
 var tplOf = map[string]uint16{"template": 300, "inband-tpl": 400, "template-short": 300}
 
+// settingsOf renders every yaml-tagged setting of the options in force.
+func settingsOf(o *Options) string {
+	v := reflect.ValueOf(o).Elem()
+	var sb strings.Builder
+	for i := 0; i < v.NumField(); i++ {
+		if tag := v.Type().Field(i).Tag.Get("yaml"); tag != "" {
+			fmt.Fprintf(&sb, "%s=%v;", strings.Split(tag, ",")[0], v.Field(i).Interface())
+		}
+	}
+	return sb.String()
+}
+
+func diffSettings(a, b string) string {
+	x, y := strings.Split(a, ";"), strings.Split(b, ";")
+	var d []string
+	for i := range x {
+		if i < len(y) && x[i] != y[i] {
+			d = append(d, x[i]+" -> "+y[i])
+		}
+	}
+	return strings.Join(d, ", ")
+}
+
 func sendSignal() {
 	sched.Point("signal")
 	venv.SignalChan() <- os.Interrupt
@@ -1163,6 +1188,25 @@ func runShutdown(it shutItem, al map[string]pdgram, cacheFile string, out *shutO
 		port := pipePort(it.proto)
 		sched.WaitCond(func() bool { return venv.Conn(port) != nil && venv.SignalChan() != nil }, "listening")
 		conn := venv.Conn(port)
+		if it.realMain && venv.SignalRegistered(syscall.SIGHUP) {
+			// the collector handles SIGHUP (the unchanged tree does not: it would die of it): whatever it does on a HUP,
+			// the settings in force must still be the ones the sources gave at start-up - a configuration file named on the
+			// command line sets other values for keys the "command line" (the options the harness started it with) has set
+			cf := filepath.Join(pipeTmpGet(), fmt.Sprintf("hup-%d.conf", os.Getpid()))
+			os.WriteFile(cf, []byte("verbose: true\nipfix-workers: 7\nsflow-workers: 7\nnetflow5-workers: 7\nnetflow9-workers: 7\nipfix-tpl-cache-file: /nonexistent/from-the-file\nnetflow9-tpl-cache-file: /nonexistent/from-the-file\nlog-file: \"\"\n"), 0644)
+			saved := os.Args
+			os.Args = []string{"vflow", "-config", cf}
+			before := settingsOf(opts)
+			sched.Point("SIGHUP")
+			venv.SignalChan() <- syscall.SIGHUP
+			sched.Quiesce()
+			after := settingsOf(opts)
+			os.Args = saved
+			os.Remove(cf)
+			if before != after {
+				o.fileErr = "after a SIGHUP the settings in force are no longer the ones given at start-up (command line over file): " + diffSettings(before, after)
+			}
+		}
 		if cycle == 0 {
 			if it.proto == ppIPFIX || it.proto == ppV9 {
 				// T1 is acknowledged: delivered and fully processed before anything else happens
